@@ -29,7 +29,7 @@ class Prop:
     level_note = ''
     budgets = {'quick': 100, 'thorough': 1000}
     timeout_s = 20.0
-    max_aborted_fraction = 0.02
+    max_aborted_fraction = 0.002
     assumptions = []
     rule = ''
     real_vs_stub = {}
